@@ -24,7 +24,7 @@ PROBES = ["placements", "relocations", "capacity_full_refusal", "conveyor_target
 
 
 def budget(tier):
-    return 6000 if tier == "quick" else 2000000
+    return 10000 if tier == "quick" else 2000000
 
 
 def gen(rng, tier):
@@ -37,6 +37,8 @@ def gen(rng, tier):
         focus["conveyor"] = True
     if rng.random() < 0.4:
         focus["task_rules"] = True
+    if rng.random() < (0.7 if focus["nested"] else 0.4):
+        focus["tight"] = True
     return C.maybe_history(rng, C.forward_spec(rng, tier, focus), 0.3)
 
 
